@@ -1182,3 +1182,17 @@ Lemma timeline_sampledur_2048_witness :
   exists l, mpd_audio_timeline 0 0 [(180000, 3)] 90000 2048 0 0 48000 = Ok l /\
             expand_s 0 l = map (image 90000 2048 48000) (expand_ref 0 [(180000, 3)]).
 Proof. split; [vm_compute; reflexivity|]. eexists. split; vm_compute; reflexivity. Qed.
+
+(** the start time of a recipe is the result of calcAudioTimeFromRef on the reference start, whatever
+    the other arguments are *)
+Lemma recipe_start_of nr s e D r F a rc v :
+  calcAudioTimeFromRef s r F a = Ok v ->
+  calcAudioSegRecipe nr s e D r F a = Ok rc -> r_start rc = v.
+Proof.
+  intros Hs. unfold calcAudioSegRecipe. rewrite Hs. cbn [bind].
+  destruct (calcAudioTimeFromRef e r F a); cbn [bind]; try discriminate.
+  destruct (D =? 0); try discriminate.
+  destruct (calcAudioTimeFromRef (u64 (s / D * D)) r F a); cbn [bind]; try discriminate.
+  destruct (calcAudioTimeFromRef (u64 (e / D * D)) r F a); cbn [bind]; try discriminate.
+  destruct (_ >? _); [destruct (_ <? _)|]; intros H; injection H as <-; reflexivity.
+Qed.
